@@ -401,6 +401,21 @@ func (fc *fileCtx) call(call *ast.CallExpr) {
 
 		fc.replace(call.Pos(), call.End(), fmt.Sprintf("zzverifsim.%s(%s, %s)", fn, lbl, fc.recvArg(recv)))
 		stats["mutex."+name]++
+	case "Pool":
+		fn := map[string]string{"Get": "PoolGet", "Put": "PoolPut"}[name]
+		if fn == "" {
+			fatalf("%s: sync.Pool.%s is not modelled by the simulator", fc.label(call.Pos()), name)
+
+			return
+		}
+
+		sep := ""
+		if len(call.Args) > 0 {
+			sep = ", "
+		}
+
+		fc.replace(call.Pos(), call.Lparen+1, fmt.Sprintf("zzverifsim.%s(%s%s", fn, fc.recvArg(recv), sep))
+		stats["pool."+name]++
 	case "Map":
 		fn := map[string]string{
 			"Load": "SMLoad", "Store": "SMStore", "Delete": "SMDelete", "Range": "SMRange",
